@@ -1,5 +1,6 @@
 // Drives the generated Naunet::Solve (odeint) against the scripted integrate_adaptive stand-in.
-// usage: solve_driver_odeint <scripts.txt> <scratchdir>    script line: tid dt y0 nsteps mxsteps
+// usage: solve_driver_odeint <scripts.txt> <scratchdir>    script line: tid dt y0 nsteps mxsteps premx
+// premx < 0: Init(mxsteps); premx >= 0: Init(premx) followed by Reset(.., mxsteps) -- the budget of the LAST configuring call counts
 #include <stdio.h>
 #include <stdlib.h>
 #include <string.h>
@@ -10,13 +11,14 @@ int main(int argc, char **argv) {
     if (argc < 3) return 2;
     FILE *in = fopen(argv[1], "r"); if (!in) return 2;
     if (chdir(argv[2]) != 0) return 2;
-    long tid, nsteps; double dt, y0; int mx;
-    while (fscanf(in, "%ld %lf %lf %ld %d", &tid, &dt, &y0, &nsteps, &mx) == 5) {
+    long tid, nsteps; double dt, y0; int mx, premx;
+    while (fscanf(in, "%ld %lf %lf %ld %d %d", &tid, &dt, &y0, &nsteps, &mx, &premx) == 6) {
         g_oshim = OdeintShimState(); g_oshim.nsteps = nsteps;
         remove("naunet_error_record.txt");
         Naunet n; NaunetData data; memset(&data, 0, sizeof(data));
         double ab[NEQUATIONS]; for (int i = 0; i < NEQUATIONS; i++) ab[i] = y0;
-        n.Init(1, 1e-20, 1e-5, mx);
+        if (premx < 0) n.Init(1, 1e-20, 1e-5, mx);
+        else { n.Init(1, 1e-20, 1e-5, premx); n.Reset(1, 1e-20, 1e-5, mx); }
 #ifdef PYMODULE
         int ret = 0; bool raised = false;
         try { py::array_t<double> arr(std::vector<ssize_t>{(ssize_t)NEQUATIONS}, ab); n.PyWrapSolve(arr, dt, &data); }
